@@ -42,6 +42,7 @@ func runRoute(c *xrun.Case) xrun.Outcome {
 type Case struct {
 	X           *xrun.Case `json:"x"`
 	MustReject  bool       `json:"must_reject"` // an override without default got no value
+	Complete    bool       `json:"complete"`    // every declared override has a value or a default
 	Description string     `json:"description"`
 }
 
@@ -61,6 +62,11 @@ func judge(c *Case) (ok bool, msg string, o xrun.Outcome) {
 			return false, "an override without default initialiser got no value, yet route " + c.X.Opts["route"] + " produced output instead of an error", o
 		}
 		return true, "", o
+	}
+	if c.Complete && strings.HasPrefix(o.Rejected, "overrides: ") {
+		// every declared override has a value or a default, so resolution itself must not fail
+		// (other rejections - a backend refusing the program - are C08's subject)
+		return false, "ir.ProcessOverrides rejects an assignment in which every override has a value or a default: " + o.Rejected, o
 	}
 	if o.Rejected != "" || o.Unsupported != "" {
 		return true, "", o
@@ -148,6 +154,12 @@ func TestPropOverrides(t *testing.T) {
 		offQuiet := func(tag string) bool { return ev.ExcludedQuiet(tag) || ev.ExcludedQuiet(prefix+tag) }
 		f.Off = off
 		gc := wgen.GenExec(t, f)
+		if ops, cmp := wgen.OverrideFoldHazards(gc.Mod); (len(ops) > 0 && offQuiet("override.fold.unsupported-op")) || (len(cmp) > 0 && offQuiet("override.fold.compare")) {
+			// open findings C14-3 / C14-2: a function-body expression over overrides and literals
+			// that override resolution folds with its + - * / float evaluator
+			ev.Class("discard:known:override-fold-op")
+			return
+		}
 		deps := dependents(gc.Overrides)
 		consts := map[string]float64{}
 		bound := map[*wgen.Var]wref.Value{}
@@ -158,7 +170,7 @@ func TestPropOverrides(t *testing.T) {
 			if mode == 2 && ov.ID < 0 {
 				mode = 1
 			}
-			if _, lit := ov.Init.(*wgen.Lit); mode == 0 && ov.Init != nil && !lit && route == "msl/pipeline" && ev.Excluded("c14.msl-pipeline.default-expr") {
+			if lit := plainLiteral(ov.Init); mode == 0 && ov.Init != nil && !lit && route == "msl/pipeline" && ev.Excluded("c14.msl-pipeline.default-expr") {
 				mode = 1 // open finding: computed defaults are not evaluated by this route
 			}
 			if mode == 0 {
@@ -233,6 +245,15 @@ func TestPropOverrides(t *testing.T) {
 				}
 			}
 		}
+		if !missing {
+			// An override-expression whose evaluation is an error (division by zero, overflow,
+			// value not representable) is a pipeline-creation error in WGSL: not a run-time
+			// computation the reference evaluator may judge.
+			if why := overrideExprError(gc, bound); why != "" {
+				ev.Class("discard:override-expression-is-an-error")
+				return
+			}
+		}
 		if missing && route == "msl/pipeline" && ev.Excluded("c14.msl-pipeline.missing-value") {
 			return
 		}
@@ -244,7 +265,7 @@ func TestPropOverrides(t *testing.T) {
 		xc.Overrides = consts
 		xc.Opts = map[string]string{"route": route, "backend": backend, "ovroute": route[strings.Index(route, "/")+1:], "version": "1.3", "glsl": "450", "sm": "6.0", "msl": "2.1", "bind": "map", "zeroinit": "1"}
 		sort.Strings(desc)
-		c := &Case{X: xc, MustReject: missing, Description: strings.Join(desc, "; ")}
+		c := &Case{X: xc, MustReject: missing, Complete: !missing && !missingUnused, Description: strings.Join(desc, "; ")}
 		ok, msg, o := judge(c)
 		raw, _ := json.Marshal(consts)
 		derived := len(deps) > 0
@@ -279,6 +300,47 @@ func TestPropOverrides(t *testing.T) {
 			t.Fatalf("%s\nroute %s; %s\n%s", msg, route, c.Description, gc.Src)
 		}
 	})
+}
+
+// overrideExprError evaluates every override default and every override-expression
+// of the function bodies with the chosen values; it returns a reason when one of
+// them is not a plain value under WGSL's rules.
+func overrideExprError(gc *wgen.ExecCase, bound map[*wgen.Var]wref.Value) string {
+	var consts []*wgen.Var
+	for _, g := range gc.Mod.Globals() {
+		if g.Kind == wgen.VConst {
+			consts = append(consts, g)
+		}
+	}
+	vals := map[*wgen.Var]wref.Value{}
+	for _, ov := range gc.Overrides {
+		if v, ok := bound[ov]; ok {
+			vals[ov] = v
+			continue
+		}
+		if ov.Init == nil {
+			continue
+		}
+		v, cls, why := wref.ConstEvalWith(ov.Init, ov.T, consts, vals)
+		if cls != wref.ConstValue {
+			return "default of " + ov.Name + ": " + why
+		}
+		vals[ov] = v
+	}
+	for _, e := range wgen.OverrideExprs(gc.Mod) {
+		if _, cls, why := wref.ConstEvalWith(e, nil, consts, vals); cls != wref.ConstValue {
+			return wgen.ExprString(e) + ": " + why
+		}
+	}
+	return ""
+}
+
+// plainLiteral reports whether an initialiser is printed as a bare literal
+// token (negative literals are printed as a unary minus applied to a literal,
+// i32 min as a conversion call: both are computed expressions for naga).
+func plainLiteral(e wgen.Expr) bool {
+	l, ok := e.(*wgen.Lit)
+	return ok && !strings.ContainsAny(wgen.ExprString(l), "-(")
 }
 
 // usedIn reports where an override's name occurs besides its declaration:
